@@ -1096,11 +1096,21 @@ def main2():
         sp = extract_flow.SPEC_INBOUND
         fpath = os.path.join(REPO, sp["file"])
         d = ast_of(fpath, sp["fn"])
-        txt, info = extract_flow.translate(sp, d, open(fpath).read(), consts, Unsupported, REPO)
+        txt, info = extract_flow.translate(sp, d, open(fpath, "rb").read(), consts, Unsupported, REPO)
         open(os.path.join(GEN, "InboundStun.lean"), "w").write(txt)
         report["kernels"][sp["fn"] + "(flow skeleton)"] = dict(info, file=sp["file"])
     except Unsupported as e:
         report["errors"].append(f"agent/conncheck.c:conn_check_handle_inbound_stun: {e}")
+    try:
+        import extract_flow
+        sp = extract_flow.SPEC_RECV
+        fpath = os.path.join(REPO, sp["file"])
+        d = ast_of(fpath, sp["fn"])
+        txt, info = extract_flow.translate_recv(sp, d, open(fpath, "rb").read(), consts, Unsupported, REPO)
+        open(os.path.join(GEN, "RecvMessage.lean"), "w").write(txt)
+        report["kernels"][sp["fn"] + "(flow skeleton)"] = dict(info, file=sp["file"])
+    except Unsupported as e:
+        report["errors"].append(f"agent/agent.c:agent_recv_message_unlocked: {e}")
     out.append("end Nice.Gen\n")
     open(os.path.join(GEN, "Kernels.lean"), "w").write("\n".join(out))
     with open(os.path.join(GEN, "Tables.lean"), "w") as f:
